@@ -370,6 +370,19 @@ def _compress_cells():
                     return _observe(lambda: _it.compress(data, sel), [data, sel], [])
                 yield Cell(f"{nd} data items, selectors {''.join('T' if p else 'F' for p in pattern) or '-'}",
                            [("IT", 0), ("IT", 1)], {}, {0: nd, 1: ns}, oracle, truths=truths)
+    # one iterator object as data *and* selectors: items and selectors alternate in the one stream
+    for n in range(0, 6):
+        for pattern in _it.product((True, False), repeat=n):
+            if n > 3 and pattern.count(True) not in (0, 1, n - 1, n):
+                continue
+            truths = {("item", 0, i): pattern[i] for i in range(n)}
+
+            def oracle(n=n, pattern=pattern):
+                src = _Src([_Truthy(("item", 0, i), pattern[i]) for i in range(n)])
+                ys, taken, calls, end = _observe(lambda: _it.compress(src, src), [src], [])
+                return [y.sym for y in ys], taken, calls, end
+            yield Cell(f"compress(it, it): {n} items with truth values {''.join('T' if p else 'F' for p in pattern) or '-'}",
+                       [("IT", 0), ("IT", 0)], {}, {0: n}, oracle, truths=truths)
 
 
 def _reduce_cells():
@@ -498,7 +511,7 @@ def _plain_iteration_cells():
 
 def sync_wrapper_table(ctx, rid: str) -> None:
     """``_aiter_sync``: the async view of a synchronous iterable yields exactly its items, one per step."""
-    _tables(ctx, rid, [("_core._aiter_sync", _plain_iteration_cells)], "asyncgen", "adapter_table_cells")
+    _tables(ctx, rid, [("_core._aiter_sync", _plain_iteration_cells)], "asyncgen", "adapter_table_cells", ALL)
 
 
 TOOLS: List[Tuple[str, Callable[[], Any]]] = [
@@ -574,24 +587,31 @@ def _norm(v):
     return v
 
 
-def aggregate_tables(ctx, rid: str) -> None:
+ALL = ("yields", "items taken", "calls", "end", "result")
+#: which parts of the trace a property speaks about (a rule never demands more than its property states)
+ITEMS_AND_END = ("yields", "end", "result")          # C01: same items, same objects, same order, same end
+RESULT_AND_CALLS = ("end", "result", "calls")        # C02: same value / exception; a default is never passed to key
+CONSUMPTION = ("yields", "items taken", "calls", "end", "result")  # C05, C06: the whole interleaved trace
+
+
+def aggregate_tables(ctx, rid: str, fields=RESULT_AND_CALLS) -> None:
     ctx.rule(rid, "aggregations as tables: reduce, sum, all, any, min, max, list, tuple, set are evaluated abstractly over sources "
                   "of 0-3 symbolic items (every truth pattern, every ranking with ties, with / without key, default, initial, "
                   "start); the result (the very item, the symbolic sum with its operand order), the items taken, the calls "
                   "of the user's callable and the exception class equal those of the stdlib function executed on the same symbols")
-    _tables(ctx, rid, AGGREGATES, "coroutine", "agg_cells")
+    _tables(ctx, rid, AGGREGATES, "coroutine", "agg_cells", fields)
 
 
-def tool_tables(ctx, rid: str) -> None:
+def tool_tables(ctx, rid: str, fields=CONSUMPTION) -> None:
     ctx.rule(rid, "single-source tools as tables: takewhile, dropwhile, filterfalse, filter, pairwise, batched, accumulate, "
                   "starmap, enumerate, map, compress are evaluated abstractly over sources of 0-5 symbolic items and every "
                   "truth pattern of the predicate; items yielded, items taken, calls of the user's callable and the way the "
                   "generator ends equal those of the stdlib tool executed on the same symbols")
     ctx.tables[f"{rid} documented deviations"] = DEVIATIONS
-    _tables(ctx, rid, TOOLS, "asyncgen", "tool_cells")
+    _tables(ctx, rid, TOOLS, "asyncgen", "tool_cells", fields)
 
 
-def _tables(ctx, rid: str, tools, kind: str, counter: str) -> None:
+def _tables(ctx, rid: str, tools, kind: str, counter: str, fields=ALL) -> None:
     for short, cells in tools:
         if not ctx.pkg.has_unit(short):
             ctx.note(f"{rid}: {short} no longer exists under this name; not tabulated")
@@ -644,19 +664,20 @@ def _tables(ctx, rid: str, tools, kind: str, counter: str) -> None:
             got = ([_norm(y) for y in ys], taken, calls, end, result)
             exp = ([_norm(y) for y in want[0]], list(want[1]), [(c[0], _norm(c[1])) for c in want[2]], want[3],
                    _norm(want[4]) if kind == "coroutine" and want[3] == "return" else None)
-            if got != exp:
+            keep = [i for i, label in enumerate(ALL) if label in fields]
+            if [got[i] for i in keep] != [exp[i] for i in keep]:
                 bad += 1
                 if bad <= 2:
                     parts = []
-                    for label, g, w in zip(("yields", "items taken", "calls", "end", "result"), got, exp):
-                        if g != w:
+                    for label, g, w in zip(ALL, got, exp):
+                        if g != w and label in fields:
                             parts.append(f"{label}: evaluated {_show(g)}, stdlib {_show(w)}")
                     ctx.fail(rid, real, name, f"[{name}: {cell.label}] differs from the stdlib {std}", witness="; ".join(parts)[:600])
         ctx.count(f"decided:{short}", decided)
         if decided < total:
             ctx.note(f"{rid}: {short}: {total - decided} of {total} cell(s) not evaluable over the model")
         if not bad and decided:
-            ctx.ok(rid, real, f"{short.split('.')[-1]} equals the stdlib tool on {decided} cells (yields, items taken, calls, end)")
+            ctx.ok(rid, real, f"{short.split('.')[-1]} equals the stdlib tool on {decided} cells ({', '.join(fields)})")
 
 
 def _show(v) -> str:
